@@ -117,6 +117,8 @@ type Exec struct {
 	tableArrs  map[string]string
 	UsedTrusted map[string]bool
 	UsedContracts map[string]bool
+	axiomDone     map[string]bool
+	readTrack     map[string]bool // heap keys touched while verifying a function with a reads clause
 	Abstract      map[string]bool // library callees abstracted for the function under verification
 	Inlined    map[string]bool
 	caseType   string
@@ -460,6 +462,31 @@ func (ex *Exec) execFrom(st *State, b *ssa.BasicBlock, i int) []Outcome {
 				}
 				return res
 			}
+		case *ssa.RunDefers:
+			if len(st.Fr.Defers) == 0 {
+				continue
+			}
+			states := []*State{st}
+			var res []Outcome
+			ds := st.Fr.Defers
+			for k := len(ds) - 1; k >= 0; k-- {
+				var next []*State
+				for _, s := range states {
+					for _, o := range ex.callFn(s, ds[k].Fn, ds[k].Args, nil, ds[k].Pos) {
+						if o.Panic {
+							res = append(res, o)
+							continue
+						}
+						next = append(next, o.St)
+					}
+				}
+				states = next
+			}
+			for _, s := range states {
+				s.Fr.Defers = nil
+				res = append(res, ex.execFrom(s, b, i+1)...)
+			}
+			return res
 		default:
 			ex.step(st, in)
 		}
@@ -715,7 +742,7 @@ func (ex *Exec) step(st *State, in ssa.Instruction) {
 			ex.AddObl(st, "safety", fmt.Sprintf("safe/nilmap@%s", ex.pos(in.Pos())), ex.pos(in.Pos()), smt.False)
 			outside("write to nil map")
 		}
-		mc := st.Mem[m.Obj].(MapContent)
+		mc := ex.mapContentOf(st, m)
 		k := ex.scalar(st, ex.value(st, in.Key))
 		v := ex.scalar(st, ex.value(st, in.Value))
 		mc = MapContent{Val: smt.Sto(mc.Val, k, v), Dom: smt.Sto(mc.Dom, k, smt.True)}
@@ -736,6 +763,18 @@ func (ex *Exec) step(st *State, in ssa.Instruction) {
 	case *ssa.Phi:
 		// handled at block entry
 	case *ssa.RunDefers:
+	case *ssa.Defer:
+		// defer f(args) with a statically known callee: the arguments are evaluated now, the
+		// call happens at the function's RunDefers (last deferred first)
+		f := in.Call.StaticCallee()
+		if f == nil || in.Call.IsInvoke() || f.Parent() != nil {
+			outside("defer of a dynamic call or closure (%s)", in)
+		}
+		var args []Val
+		for _, a := range in.Call.Args {
+			args = append(args, ex.value(st, a))
+		}
+		st.Fr.Defers = append(st.Fr.Defers, deferredCall{Fn: f, Args: args, Pos: ex.pos(in.Pos())})
 	default:
 		outside("instruction %T not modelled (%s)", in, in)
 	}
@@ -972,7 +1011,7 @@ func (ex *Exec) DeepEq(st *State, a, b Val) string {
 		if x.Obj == nil || y.Obj == nil {
 			outside("deep equality on nil map")
 		}
-		mx, my := st.Mem[x.Obj].(MapContent), st.Mem[y.Obj].(MapContent)
+		mx, my := ex.mapContentOf(st, x), ex.mapContentOf(st, y)
 		k := ex.boundName("k")
 		ks := mustSort(x.K)
 		return smt.Forall([][2]string{{k, ks}}, smt.And(smt.Eq(smt.Sel(mx.Dom, k), smt.Sel(my.Dom, k)),
@@ -1176,7 +1215,7 @@ func (ex *Exec) lookup(st *State, in *ssa.Lookup) Val {
 			}
 			return z
 		}
-		mc := st.Mem[x.Obj].(MapContent)
+		mc := ex.mapContentOf(st, x)
 		k := ex.scalar(st, ex.value(st, in.Index))
 		dom := smt.Sel(mc.Dom, k)
 		v := wrapTerm(x.V, smt.Ite(dom, smt.Sel(mc.Val, k), zeroTerm(vs)))
@@ -1227,7 +1266,7 @@ func (ex *Exec) rangeStart(st *State, in *ssa.Range) Val {
 	ks := mustSort(m.K)
 	keys := ex.Ctx.Fresh("rangekeys", "(Array Int "+ks+")")
 	n := ex.Ctx.Fresh("rangelen", "Int")
-	mc := st.Mem[m.Obj].(MapContent)
+	mc := ex.mapContentOf(st, m)
 	i, j := ex.boundName("i"), ex.boundName("j")
 	k := ex.boundName("k")
 	idxOf := ex.Ctx.Fresh("rangeidx", "(Array "+ks+" Int)")
@@ -1259,7 +1298,7 @@ func (ex *Exec) rangeNext(st *State, in *ssa.Next) Val {
 		// nil map: no iteration
 		return Tuple{Bool{smt.False}, ex.Zero(st, tup.At(1).Type()), ex.Zero(st, tup.At(2).Type())}
 	}
-	mc := st.Mem[it.M.Obj].(MapContent)
+	mc := ex.mapContentOf(st, it.M)
 	if mc.Dom != it.Dom {
 		outside("the map is modified while it is ranged over")
 	}
